@@ -257,12 +257,13 @@ class Acc:
             log(line)
             self.violations.append(line)
 
-    def add_harness(self, summ, viol, leg, traces_key="runs"):
+    def add_harness(self, summ, viol, leg, traces_key="runs", count_nontrivial=True):
         self.violations += viol
         if summ:
             self.traces += summ.get(traces_key, 0)
             self.evaluations += summ.get("comparisons", 0)
-            self.nontrivial += summ.get("nontrivial", 0)
+            if count_nontrivial:
+                self.nontrivial += summ.get("nontrivial", 0)
             for k, v in summ.get("devs_used", {}).items():
                 self.known_used[k] = self.known_used.get(k, 0) + v
             for k, v in summ.get("drift", {}).items():
